@@ -751,6 +751,8 @@ fn float_float(ctx: &Ctx, total: &mut Collector) {
 }
 
 fn wrappers(ctx: &Ctx, c: &mut Collector) {
+    use palette::lms::{VonKriesLms, VonKriesLmsa};
+    use palette::white_point::D65;
     use palette::{Alpha, Hsl, Hsv, Hwb, LinSrgb, Srgb, SrgbLuma};
     let sub = "into_format-wrappers";
     if !ctx.wants(sub) {
@@ -790,6 +792,19 @@ fn wrappers(ctx: &Ctx, c: &mut Collector) {
                     let a2: Alpha<Srgb<f32>, $t> = Alpha { color: Srgb::new(b, b, b), alpha: e(a) };
                     let a3 = a2.into_format::<f32, f64>();
                     cmp!(concat!("Alpha/", stringify!($t), "->f64"), a3.alpha.to_bits(), d(e(a)).to_bits(), a);
+                    // Lms (lower-bounded only) and its Alpha form, both directions of the call
+                    let lms = VonKriesLms::<D65, f32>::new(a, b, 1.0 - b).into_format::<$t>();
+                    cmp!(concat!("Lms/f32->", stringify!($t)), (lms.long, lms.medium, lms.short), (e(a), e(b), e(1.0 - b)), (a, b));
+                    let lms2 = VonKriesLms::<D65, $t>::from_format(VonKriesLms::<D65, f32>::new(a, b, 1.0 - b));
+                    cmp!(concat!("Lms/from_format/f32->", stringify!($t)), (lms2.long, lms2.medium, lms2.short), (e(a), e(b), e(1.0 - b)), (a, b));
+                    let lmsa = VonKriesLmsa::<D65, f32>::new(a, b, 1.0 - b, a).into_format::<$t, $t>();
+                    cmp!(concat!("Lmsa/f32->", stringify!($t)), (lmsa.long, lmsa.medium, lmsa.short, lmsa.alpha), (e(a), e(b), e(1.0 - b), e(a)), (a, b));
+                    let lb = lms.into_format::<f64>();
+                    cmp!(concat!("Lms/", stringify!($t), "->f64"), (lb.long.to_bits(), lb.medium.to_bits(), lb.short.to_bits()), (d(lms.long).to_bits(), d(lms.medium).to_bits(), d(lms.short).to_bits()), (a, b));
+                    let lub = SrgbLuma::<$t>::new(e(a)).into_format::<f64>();
+                    cmp!(concat!("Luma/", stringify!($t), "->f64"), lub.luma.to_bits(), d(e(a)).to_bits(), a);
+                    let rgb3 = Srgb::<f64>::from_format(rgb);
+                    cmp!(concat!("Rgb/from_format/", stringify!($t), "->f64"), (rgb3.red.to_bits(), rgb3.green.to_bits(), rgb3.blue.to_bits()), (d(rgb.red).to_bits(), d(rgb.green).to_bits(), d(rgb.blue).to_bits()), (a, b));
                 }
             }
         }};
@@ -799,6 +814,35 @@ fn wrappers(ctx: &Ctx, c: &mut Collector) {
     per_target!(u32);
     per_target!(u64);
     per_target!(u128);
+    // integer -> integer wrappers: every u8 code, the ends and a middle code of u16 / u32, through Rgb, Rgba, Luma, Lms
+    macro_rules! int_int {
+        ($s:ident => $($t:ident),*) => {{
+            let codes: Vec<$s> = if <$s>::MAX as u128 == 255 { (0..=255u32).map(|v| v as $s).collect() } else { vec![0, 1, <$s>::MAX / 2, <$s>::MAX / 2 + 1, <$s>::MAX - 1, <$s>::MAX, 12345u32 as $s, 257u32 as $s] };
+            $(
+                for &a in &codes {
+                    let b: $s = <$s>::MAX - a;
+                    let e = |x: $s| -> $t { <$t as FromStimulus<$s>>::from_stimulus(x) };
+                    let rgb = Srgb::<$s>::new(a, b, a).into_format::<$t>();
+                    cmp!(concat!("Rgb/", stringify!($s), "->", stringify!($t)), (rgb.red, rgb.green, rgb.blue), (e(a), e(b), e(a)), (a, b));
+                    let rgb2 = Srgb::<$t>::from_format(Srgb::<$s>::new(a, b, a));
+                    cmp!(concat!("Rgb/from_format/", stringify!($s), "->", stringify!($t)), (rgb2.red, rgb2.green, rgb2.blue), (e(a), e(b), e(a)), (a, b));
+                    let rgba = palette::Srgba::<$s>::new(a, b, a, b).into_format::<$t, $t>();
+                    cmp!(concat!("Rgba/", stringify!($s), "->", stringify!($t)), (rgba.red, rgba.green, rgba.blue, rgba.alpha), (e(a), e(b), e(a), e(b)), (a, b));
+                    let rgba2 = palette::Srgba::<$t>::from_format(palette::Srgba::<$s>::new(a, b, a, b));
+                    cmp!(concat!("Rgba/from_format/", stringify!($s), "->", stringify!($t)), (rgba2.red, rgba2.green, rgba2.blue, rgba2.alpha), (e(a), e(b), e(a), e(b)), (a, b));
+                    let l = SrgbLuma::<$s>::new(a).into_format::<$t>();
+                    cmp!(concat!("Luma/", stringify!($s), "->", stringify!($t)), l.luma, e(a), a);
+                    let la = palette::SrgbLumaa::<$s>::new(a, b).into_format::<$t, $t>();
+                    cmp!(concat!("Lumaa/", stringify!($s), "->", stringify!($t)), (la.luma, la.alpha), (e(a), e(b)), (a, b));
+                    let lms = VonKriesLms::<D65, $s>::new(a, b, a).into_format::<$t>();
+                    cmp!(concat!("Lms/", stringify!($s), "->", stringify!($t)), (lms.long, lms.medium, lms.short), (e(a), e(b), e(a)), (a, b));
+                }
+            )*
+        }};
+    }
+    int_int!(u8 => u8, u16, u32, u64, u128, f32, f64);
+    int_int!(u16 => u8, u16, u32, u64, u128, f32, f64);
+    int_int!(u32 => u8, u16, u32, u64, u128, f32, f64);
     // hue-bearing types: float -> float
     for &a in &lat {
         for &b in &[0.0f32, 0.3, 1.0] {
@@ -813,7 +857,7 @@ fn wrappers(ctx: &Ctx, c: &mut Collector) {
         }
     }
     c.add(sub, n, n, n, n);
-    c.exhaustive(sub, true, "16 component values (incl. out of range, infinities) × 4 × {Rgb, LinRgb, Rgba, Luma, Lumaa, Alpha, Hsv, Hsl, Hwb, Hsva} × {u8..u128,f64}: wrapper ≡ component function, bitwise");
+    c.exhaustive(sub, true, "16 component values (incl. out of range, infinities) × 4 × {Rgb, LinRgb, Rgba, Luma, Lumaa, Alpha, Lms, Lmsa, Hsv, Hsl, Hwb, Hsva} × {u8..u128,f64}, into_format and from_format; integer sources: all 256 u8 codes / 8 codes of u16, u32 × {Rgb, Rgba, Luma, Lumaa, Lms} → {u8..u128, f32, f64}: wrapper ≡ component function, bitwise");
 }
 
 fn replay(c: &mut Collector, rep: &Value) {
